@@ -393,6 +393,12 @@ EXPLORATORY.setdefault('C09', []).append(
          errnos=['ENOSPC', 'EACCES'], crash_end=True, weight=0.7,
          sweep_max={'quick': 8, 'thorough': None}, follow=1))
 EXPLORATORY.setdefault('C08', []).append(
+    camp('c08-threads-crash', 'threads', {'p_same_key': 1.0, 'p_tamper': 0.7},
+         'same key from 2-4 threads, last build crashed at every raise '
+         'opportunity', mode='crash-sweep', nontrivial=nt_threads, chunk=4,
+         fault_step='lastbuild', post='tag_all:C08',
+         sweep_max={'quick': 10, 'thorough': None}, follow=1))
+EXPLORATORY.setdefault('C08', []).append(
     camp('c08-threads-oserror', 'threads',
          {'p_same_key': 1.0, 'p_tamper': 0.6},
          'same key from 2-4 threads with an OSError at every pre-commit '
